@@ -181,6 +181,18 @@ def special_cases():
                      b"\xff\xfea\x00", b"50% off\n", b"line\n", b"line\n\n", b"\n", b"@file", b"a\\tb\n", b"{\"k\": \"v\\n\"}\n"):
             out.append(mk("binbody", "ct-" + (ct[1].decode().split("/")[-1][:12] if ct else "none"), method=b"POST",
                           headers=[ct] if ct else [], content=body))
+    # relation of the Host header to request.host (= example.com): equal, with port, an extension of it, a prefix of it,
+    # other spelling, different, absent - the argv must still encode the request's Host (header kept, or carried by the URL)
+    for rel, value in (("equal", HOST), ("port-default", HOST + b":80"), ("port-other", HOST + b":8080"),
+                       ("extension-label", HOST + b".evil.org"), ("extension-chars", HOST + b"munity"), ("extension-digit", HOST + b"0"),
+                       ("prefix", HOST[:-1]), ("subdomain", b"www." + HOST),
+                       ("upper", HOST.upper()), ("trailing-dot", HOST + b"."), ("different", b"other.test"), ("absent", None)):
+        for opt in (False, True):
+            for peer in (None, "192.0.2.7"):
+                hdrs = [(b"X-T", b"v")] + ([(b"Host", value)] if value is not None else [])
+                out.append(mk("hostrel", rel, headers=hdrs, opt=opt, peer=peer))
+                if not opt and peer is None:
+                    out.append(mk("hostrel", rel, method=b"POST", headers=hdrs + [CT_UTF8], content=b"b=1", opt=opt, peer=peer))
     # export_preserve_original_ip
     for opt in (False, True):
         for peer in (None, "192.0.2.7", "2001:db8::1", "example.com"):
